@@ -302,12 +302,63 @@ def shard(cfg):
     return res
 
 
+def check_int(kind, par):
+    """every named variable of integer-typed conservative data equals that of the same values as float64, bit for bit"""
+    out = []
+    if kind == "euler1d":
+        model = space.euler.euler1d(gamma=par)
+    elif kind == "shallowwater":
+        model = space.shallow.shallowwater1d(g=par)
+    elif kind == "burgers":
+        model = space.burgers.model()
+    else:
+        model = space.convection.model(par)
+    data = space.int_cons_lattice(kind)
+    m = space.mesh_spec(("uni", data[0].size, 2.0, 0.0))
+    ff = space.field.fdata(model, m, [d.copy() for d in data])
+    n = 0
+    for dt in (np.int64, np.int32):
+        fi = space.field.fdata(model, m, [d.astype(dt) for d in data])
+        for v in model.list_var():
+            n += 1
+            try:
+                with np.errstate(all="ignore"):
+                    a, b = fi.phydata(v), ff.phydata(v)
+            except Exception as e:
+                out.append(("C17/%s/%s/integer-typed-data/raises" % (kind, v), "phydata(%r) of %s data raised %r" % (v, np.dtype(dt).name, e), 0))
+                continue
+            if not space.same_bits(a, b):
+                out.append(("C17/%s/%s/integer-typed-data" % (kind, v), "%s %r: %r of %s data is %r, of the same values as float64 %r" % (
+                    kind, par, v, np.dtype(dt).name, np.asarray(a).tolist(), np.asarray(b).tolist()), 0))
+        try:
+            with np.errstate(all="ignore"):
+                pi, pf = model.cons2prim([d.astype(dt) for d in data]), model.cons2prim([d.copy() for d in data])
+            if not space.same_bits(list(pi), list(pf)):
+                out.append(("C17/%s/cons2prim/integer-typed-data" % kind, "cons2prim of %s data differs from that of the same values as float64" % np.dtype(dt).name, 0))
+        except Exception as e:
+            out.append(("C17/%s/cons2prim/integer-typed-data/raises" % kind, "cons2prim of %s data raised %r" % (np.dtype(dt).name, e), 0))
+    return out, n
+
+
+def shard_int(cfg):
+    res = core.Res()
+    v, n = check_int(cfg[0], cfg[1])
+    res.evals += n
+    res.nontrivial += n
+    for s, w, _ in v:
+        res.violation(s, w, {"cfg": ["int", cfg[0], cfg[1]], "index": 0})
+    return res
+
+
 def run(ctx):
     ctx.pmap("variables", shard, configs(ctx.tier))
+    ctx.pmap("integer-typed-data", shard_int, [("euler1d", 1.4), ("euler1d", 1.2), ("shallowwater", 9.81), ("burgers", None), ("convection", 2.0)])
     ctx.pmap("fdata_fromprim", shard_fromprim, [0])
 
 
 def replay(case):
+    if case["cfg"][0] == "int":
+        return [(s, w) for s, w, _ in check_int(case["cfg"][1], case["cfg"][2])[0]]
     if case["cfg"][0] == "fromprim":
         return [(s, w) for s, w, _ in check_fromprim()]
     cfg = (case["cfg"][0], case["cfg"][1], case["cfg"][2])
